@@ -35,6 +35,7 @@ var loopTargets = []loopTarget{
 	{"da/jsonrpc/client.go", "API", "SubmitWithOptions", "client_filter"},
 	{"types/da.go", "", "RetrieveWithHelpers", "retrieve_chunks"},
 	{"block/pending_data.go", "PendingData", "numWaitingData", "num_waiting"},
+	{"block/pending_base.go", "pendingBase", "getPending", "get_pending"},
 }
 
 type ltr struct {
@@ -49,6 +50,8 @@ type ltr struct {
 	call   string // name of the abstract call (shape B)
 	calls  int
 	lenOf  map[string]bool // free slices whose len() is read
+	single bool            // the abstract call returns one item (fetch by index), not a list
+	errVal string          // what `err != nil` is in the branch being translated ("true" / "false")
 }
 
 func (l *ltr) fail(s string) string { l.bad = append(l.bad, s); return "(0)" }
@@ -164,10 +167,18 @@ func (l *ltr) cond(e ast.Expr) string {
 		// err != nil / err == nil on the result of the abstract call
 		if id, ok := x.X.(*ast.Ident); ok && id.Name == "err" {
 			if y, ok := x.Y.(*ast.Ident); ok && y.Name == "nil" {
-				if x.Op == token.NEQ {
-					return "ERR"
+				v := l.errVal
+				if v == "" {
+					l.bad = append(l.bad, "err tested outside the continuation of a call")
+					v = "false"
 				}
-				return "(negb ERR)"
+				if x.Op == token.NEQ {
+					return v
+				}
+				if v == "true" {
+					return "false"
+				}
+				return "true"
 			}
 		}
 		// x.Metadata != nil and the like: a boolean Section variable of the element
@@ -266,11 +277,18 @@ func (l *ltr) stmts(ss []ast.Stmt, next func() string, brk func() string, ret fu
 					l.calls++
 					arg := l.callArgs(c)
 					l.locals[r.Name] = true
-					body := l.stmts(rest, next, brk, ret)
-					// `if err != nil` in the continuation was rendered with ERR: split on the call's answer
-					okBranch := strings.ReplaceAll(body, "ERR", "false")
-					errBranch := strings.ReplaceAll(body, "ERR", "true")
-					return "(match the_call " + arg + " with\n      | Some " + coqName(r.Name) + " => " + okBranch + "\n      | None => let " + coqName(r.Name) + " := [] in " + errBranch + "\n      end)"
+					before := save()
+					l.errVal = "false"
+					okBranch := l.stmts(rest, next, brk, ret)
+					l.state = before
+					l.errVal = "true"
+					errBranch := l.stmts(rest, next, brk, ret)
+					l.state = before
+					l.errVal = ""
+					if l.single {
+						return "(match the_call " + arg + " with\n      | Some " + coqName(r.Name) + " => " + okBranch + "\n      | None => " + errBranch + "\n      end)"
+					}
+					return "(match the_call " + arg + " with\n      | Some " + coqName(r.Name) + " => " + okBranch + "\n      | None => " + errBranch + "\n      end)"
 				}
 			}
 		}
@@ -317,6 +335,17 @@ func (l *ltr) stmts(ss []ast.Stmt, next func() string, brk func() string, ret fu
 	case *ast.IfStmt:
 		if x.Init == nil {
 			c := l.cond(x.Cond)
+			if c == "true" {
+				return l.stmts(append(append([]ast.Stmt{}, x.Body.List...), rest...), next, brk, ret)
+			}
+			if c == "false" {
+				switch e := x.Else.(type) {
+				case nil:
+					return l.stmts(rest, next, brk, ret)
+				case *ast.BlockStmt:
+					return l.stmts(append(append([]ast.Stmt{}, e.List...), rest...), next, brk, ret)
+				}
+			}
 			before := save()
 			thn := l.stmts(append(append([]ast.Stmt{}, x.Body.List...), rest...), next, brk, ret)
 			l.state = before
@@ -342,6 +371,15 @@ func (l *ltr) callArgs(c *ast.CallExpr) string {
 	for _, a := range c.Args {
 		if se, ok := a.(*ast.SliceExpr); ok && se.Low != nil && se.High != nil {
 			return "(" + l.iexpr(se.Low) + ") (" + l.iexpr(se.High) + ")"
+		}
+	}
+	// a call indexed by the loop variable (fetch(ctx, store, i)): one item per call
+	if l.idx != "" && l.elem == "" {
+		for _, a := range c.Args {
+			if id, ok := a.(*ast.Ident); ok && id.Name == l.idx {
+				l.single = true
+				return coqName(l.idx)
+			}
 		}
 	}
 	var as []string
@@ -546,7 +584,11 @@ func translateLoops(root string, parse func(string) *ast.File) string {
 		if shape == "A" {
 			b.WriteString("  Variable Elem : Type.\n  Variable len_elem : Elem -> N.\n")
 		} else {
-			b.WriteString("  Variable Res : Type.\n  Variable the_call : N -> N -> option (list Res).\n")
+			if l.single {
+				b.WriteString("  Variable Res : Type.\n  Variable the_call : N -> option Res.\n")
+			} else {
+				b.WriteString("  Variable Res : Type.\n  Variable the_call : N -> N -> option (list Res).\n")
+			}
 		}
 		var frees []string
 		for n, isFree := range l.free {
